@@ -29,7 +29,7 @@ HEADER = "From A816 Require Import Oracle.TblFileo."
 CASE_TYPE = "case"
 CHECK = "check"
 MODEL_VIEW = "model_view"
-PROOF_HEADER = "From A816 Require Import Properties.C18File."
+PROOF_HEADER = "From A816 Require Import Properties.C18FileOracle Properties.C18File."
 THEOREMS = ["C18F_match_deterministic", "C18F_search_sound", "C18F_search_complete", "C18F_match_unique_groups",
             "C18F_match_exists_iff", "C18F_match_shape", "C18F_line_match", "C18F_line_roundtrip",
             "C18F_line_roundtrip_no_newline", "C18F_unescape_escape", "C18F_file_roundtrip",
@@ -38,7 +38,8 @@ THEOREMS = ["C18F_match_deterministic", "C18F_search_sound", "C18F_search_comple
             "C18F_file_lines_to_bytes", "C18F_file_roundtrip_codec", "C18F_reject_not_hex", "C18F_reject_blank",
             "C18F_odd_hex", "C18F_odd_hex_line", "C18F_hex_pairs_parity", "C18F_ignore_letter",
             "C18F_ignore_too_long", "C18F_bad_line_rejects_file", "C18F_empty_file", "C18F_no_entries",
-            "C18F_no_fuel", "C18F_nonvacuous_line", "C18F_nonvacuous_file", "C18F_nonvacuous_backtrack"]
+            "C18F_no_fuel", "C18F_nonvacuous_line", "C18F_nonvacuous_file", "C18F_nonvacuous_backtrack",
+            "C18F_oracle_rejected", "C18F_oracle_loaded_is_model", "C18F_oracle_loaded_verdict", "C18F_oracle_self_corr"]
 RULE = ("texts of generated .tbl files loaded by script.Table(path): files of 1-25 rendered well-formed lines (1-4 byte "
         "codes in upper/lower/mixed-case hex, optional ':k' with leading zeros and up to 2000 digits, blanks of every \\s "
         "class before '=', texts with '=', ':', backslashes, escaped newlines, non-ASCII, trailing blanks, duplicates of texts "
